@@ -82,6 +82,11 @@ theorem FrS.trans {a b c : SeqState} (h1 : FrS a b) (h2 : FrS b c) : FrS a c :=
 
 theorem Fr_fail (s : SeqState) (e : Err) : Fr s (fail s e) := ⟨rfl, rfl, rfl⟩
 theorem Fr_done {s s' : SeqState} (h : FrS s s') : Fr s (done s') := h
+theorem Fr_orRollback {s : SeqState} {r : Raw} (h : Fr s r) : Fr s (r.orRollback s) := by
+  rcases Raw.orRollback_cases r s with e | ⟨e, he⟩
+  · rw [e]; exact h
+  · rw [he]; exact ⟨rfl, rfl, rfl⟩
+
 theorem Fr_of {s s1 : SeqState} {r : Raw} (h1 : FrS s s1) (h2 : Fr s1 r) : Fr s r :=
   FrS.trans h1 h2
 
@@ -245,7 +250,7 @@ theorem stepRaw_calls {s : SeqState} {op : Op} (hs : selfStored op = true)
       all_goals first
         | (simp_all; done)
         | exact store_ok (Fr_done (addChannel_FrS _ _)) (by assumption)
-        | exact store_ok (Fr_of (addChannel_FrS _ _) (Fr_targetCore _ _ _)) (by assumption)
+        | exact store_ok (Fr_orRollback (Fr_of (addChannel_FrS _ _) (Fr_targetCore _ _ _))) (by assumption)
   | configDetMap dmmId w1 w2 =>
     simp only [stepRaw] at h ⊢
     repeat' split at h
